@@ -179,3 +179,18 @@ R("header-type-check-helper",
     def _check_type(self, metadata_type):
         if metadata_type != self.metadata_type:
             raise ValueError("Metadata of type %r cannot be loaded as %r" % (metadata_type, self.metadata_type))'''))
+
+# JSON written as UTF-8 (no \\u escapes) with a final newline - the statement fixes key order and indentation only
+R("json-utf8-final-newline",
+  (CM, 'json.dump(parser, f, indent=4, sort_keys=True, separators = (",", ": "))',
+       'json.dump(parser, f, indent=4, sort_keys=True, separators = (",", ": "), ensure_ascii=False)\n        f.write("\\n")'))
+
+# compose path normalised; error text reworded but still naming the location
+R("compose-path-normalised",
+  (CO, "        self._composeinfo = None\n        self._images = None", "        self.compose_path = os.path.normpath(self.compose_path) if \"://\" not in self.compose_path else self.compose_path\n        self._composeinfo = None\n        self._images = None"),
+  (CO, "        raise RuntimeError('Failed to load metadata from %s' % self.compose_path)", "        raise RuntimeError('No metadata file (%s) under %s' % (', '.join(paths), self.compose_path))"))
+
+# discinfo and treeinfo end with a newline; INI written without spaces around '='
+R("ini-no-spaces-discinfo-newline",
+  (DI, '        f.write("\\n".join(parser))', '        f.write("\\n".join(parser) + "\\n")'),
+  (TI, "        parser.write(f)", "        parser.write(f, space_around_delimiters=False)"))
